@@ -112,6 +112,15 @@ Value(raise) ==
            /\ Log([op |-> "value", c |-> "-", x |-> raise, y |-> "-", out |-> r.out, nlv |-> r.nlv])
     /\ UNCHANGED <<h, track, clk>>
 
+\* holdings_weights(): values the account (hence marks it to market) and reports notional / NLV per contract
+WeightsQ ==
+    /\ "weights" \in Ops
+    /\ \E r \in {ValueF(st, TRUE)} :
+           /\ st' = r.st
+           /\ Log([op |-> "weights", c |-> "-", x |-> "-", y |-> "-", out |-> r.out, nlv |-> r.nlv,
+                   w |-> IF r.out = "ok" THEN [c \in C |-> Div(Notional(r.st, c), r.nlv)] ELSE <<>>])
+    /\ UNCHANGED <<h, track, clk>>
+
 \* the rebalancing path: trades are built by the library from the exchange's current quotes
 DoRebalance(req, dt, tag, prepared) ==
     \E t \in {clk + dt} : \E r \in {RebalanceF(st, req, t)} :
@@ -179,6 +188,7 @@ Next ==
              \/ \E c \in C : Mark(c)
              \/ MarkAll
              \/ \E r \in BOOLEAN : Value(r)
+             \/ WeightsQ
              \/ \E tgt \in LotTargets, dt \in Steps : Lots(tgt, dt)
              \/ \E req \in Reqs, dt \in Steps : Rebal(req, dt)
              \/ \E dt \in Steps \cup {0}, a \in BOOLEAN : Accrue(dt, a)
@@ -219,7 +229,7 @@ QuoteDelta ==
 
 \* valuation, marking and failed operations never move value
 Neutral ==
-    [][ (last'.op \in {"mark", "markall", "value", "query"} /\ Valuable(st)) => NlvOf(st') = NlvOf(st) ]_vars
+    [][ (last'.op \in {"mark", "markall", "value", "query", "weights"} /\ Valuable(st)) => NlvOf(st') = NlvOf(st) ]_vars
 
 -----------------------------------------------------------------------------
 \* C05  margin account
@@ -230,7 +240,7 @@ MarginOk(s, c) ==
 
 \* observation points: after a valuation / a full mark all contracts, after a trade the traded one
 MarginInv ==
-    /\ (last.op \in {"value", "markall", "rebalance"} /\ last.out \in {"ok", "broke"} /\ Valuable(st))
+    /\ (last.op \in {"value", "markall", "rebalance", "weights"} /\ last.out \in {"ok", "broke"} /\ Valuable(st))
           => \A c \in C : MarginOk(st, c)
     /\ (last.op = "trade" /\ last.out = "ok") => MarginOk(st, last.c)
     /\ (last.op = "mark" /\ Liq(st, last.c) # NaN /\ st.ref[last.c] # None) => MarginOk(st, last.c)
